@@ -5,9 +5,11 @@ pub mod c08;
 pub mod c11;
 pub mod c12;
 pub mod c13;
+pub mod c14;
 pub mod c16;
 pub mod c17;
 pub mod c18;
+pub mod c19;
 pub mod svgcheck;
 
 use crate::report::{Collector, Ctx};
@@ -32,9 +34,11 @@ pub fn run(ctx: &Ctx) -> Option<Collector> {
         "C10" => basic::c10(ctx),
         "C12" => c12::run(ctx),
         "C13" => c13::run(ctx),
+        "C14" => c14::run(ctx),
         "C15" => basic::c15(ctx),
         "C17" => c17::run(ctx),
         "C18" => c18::run(ctx),
+        "C19" => c19::run(ctx),
         _ => return None,
     })
 }
@@ -43,6 +47,12 @@ pub fn run(ctx: &Ctx) -> Option<Collector> {
 pub fn replay_other(prop: &str, kind: &str, case: &serde_json::Value) -> Result<Vec<(String, String)>, String> {
     if kind == "wasm" || kind == "wasm-qr" {
         return c17::replay(case);
+    }
+    if kind == "history" || kind == "schedule" {
+        return c14::replay(case);
+    }
+    if kind == "fault" {
+        return c19::replay(case, &std::env::var("VERIF_DIR").unwrap_or_else(|_| "/verif".to_string()));
     }
     if kind == "raster" {
         return c13::replay(case);
